@@ -30,6 +30,7 @@ class Point:
         self.positive_syms = set(positive_syms)
         self.integer_inputs = integer_inputs
         self.input_fn = input_fn
+        self.eval_ranges = False  # ("range", expr) spaces: evaluate expr instead of drawing a size
         self.degenerate = False  # ties on purpose: coordinates repeated exactly / nearly / zero (boundaries of row masks)
 
     def inp(self, name, idx):
@@ -64,6 +65,12 @@ class Point:
 
     def size(self, key):
         if key not in self.sizes:
+            if isinstance(key, tuple) and len(key) == 2 and key[0] == "range" and isinstance(key[1], Expr) \
+                    and self.eval_ranges:
+                v = ev(key[1], self)
+                if isinstance(v, float) and (math.isnan(v) or math.isinf(v)):
+                    raise NotEvaluable("range of non-finite length")
+                return max(0, int(math.ceil(v - 1e-9)))
             self.sizes[key] = self.rng.randint(1, self.nrows + 1)
         return self.sizes[key]
 
@@ -205,9 +212,16 @@ def ev(e: Expr, pt: Point):
             pt.ivs.pop(e[2], None)
         else:
             pt.ivs[e[2]] = saved
+        if e[1] in ("all", "any"):
+            return {"all": all, "any": any}[e[1]](vals)
         if not vals:
             raise NotEvaluable("empty reduction")
-        return {"max": max, "min": min, "all": all, "any": any}[e[1]](vals)
+        if e[1] in ("argmin", "argmax"):
+            if any(isinstance(v, float) and math.isnan(v) for v in vals):
+                raise NotEvaluable("arg-extreme over NaN")
+            ext = min(vals) if e[1] == "argmin" else max(vals)
+            return float(vals.index(ext))  # first occurrence, as numpy
+        return {"max": max, "min": min}[e[1]](vals)
     if t == "sel":
         k = pt.iv(e[1]) % len(e[2])
         return ev(e[2][k], pt)
